@@ -4,6 +4,7 @@
 //!
 //! usage: corr <suite> <seed> <count> <outdir>
 
+mod dsuites;
 mod gen;
 mod suites;
 mod util;
@@ -16,10 +17,13 @@ pub struct Out {
     pub imp: BufWriter<File>,
     pub stats: std::collections::BTreeMap<String, u64>,
     pub progress: std::path::PathBuf,
+    pub cases: usize,
+    pub fixed_fuel: Option<String>,
 }
 
 impl Out {
     pub fn case(&mut self, req: &str, imp: &str) {
+        self.cases += 1;
         writeln!(self.req, "{}", req).unwrap();
         writeln!(self.imp, "{}", imp).unwrap();
     }
@@ -35,12 +39,13 @@ impl Out {
 fn main() {
     let args: Vec<String> = std::env::args().collect();
     if args.len() != 5 {
-        eprintln!("usage: corr <suite> <seed> <count> <outdir>");
+        eprintln!("usage: corr <suite> <seed> <count> <outdir>  |  corr replay <name> <reqfile> <outdir>");
         std::process::exit(2);
     }
-    let suite = &args[1];
-    let seed: u64 = args[2].parse().expect("seed");
-    let count: usize = args[3].parse().expect("count");
+    let is_replay = args[1] == "replay";
+    let suite = if is_replay { &args[2] } else { &args[1] };
+    let seed: u64 = if is_replay { 0 } else { args[2].parse().expect("seed") };
+    let count: usize = if is_replay { 0 } else { args[3].parse().expect("count") };
     let outdir = std::path::PathBuf::from(&args[4]);
     std::fs::create_dir_all(&outdir).unwrap();
     let mut out = Out {
@@ -48,21 +53,32 @@ fn main() {
         imp: BufWriter::new(File::create(outdir.join(format!("{suite}.impl"))).unwrap()),
         stats: Default::default(),
         progress: outdir.join(format!("{suite}.progress")),
+        cases: 0,
+        fixed_fuel: None,
     };
     let mut rng = util::Rng::new(seed);
+    if is_replay {
+        let lines: Vec<String> = std::fs::read_to_string(&args[3])
+            .expect("reqfile")
+            .lines()
+            .map(|l| l.to_string())
+            .collect();
+        suites::replay(&lines, &mut out);
+    } else {
     match suite.as_str() {
-        "cell" => suites::cell(&mut rng, count, &mut out),
-        "mem" => suites::mem(&mut rng, count, &mut out),
+        "cell" => dsuites::cell(&mut rng, count, &mut out),
+        "mem" => dsuites::mem(&mut rng, count, &mut out),
         "inplace" => suites::inplace(&mut rng, count, &mut out),
         "irparse" => suites::irparse(&mut rng, count, &mut out),
         "irrun" => suites::irrun(&mut rng, count, &mut out),
         "e2e" => suites::e2e(&mut rng, count, &mut out),
-        "sv" => suites::smallvec(&mut rng, count, &mut out),
-        "expr" => suites::expr(&mut rng, count, &mut out),
+        "sv" => dsuites::smallvec(&mut rng, count, &mut out),
+        "expr" => dsuites::expr(&mut rng, count, &mut out),
         _ => {
             eprintln!("unknown suite {suite}");
             std::process::exit(2);
         }
+    }
     }
     out.req.flush().unwrap();
     out.imp.flush().unwrap();
